@@ -42,9 +42,9 @@ func genSessParams(g *Gen, maxConn int) SessParams {
 	p := SessParams{Method: byte(g.Int(0, 3)), NConn: g.Int(1, maxConn), InactS: 3600}
 	switch g.Int(0, 3) {
 	case 0:
-		p.WireLimit = g.Int(300, 2000)
+		p.WireLimit = g.Int(minWireLimit, 2000)
 	case 1:
-		p.WireLimit = g.Pick(300, 1024, 4096, 16401)
+		p.WireLimit = g.Pick(minWireLimit, 1024, 4096, 16401)
 	default:
 		p.WireLimit = 0 // default 16640
 	}
